@@ -1161,6 +1161,22 @@ def gen_macro_program(rng):
     for k in range(nm):
         params = ["a", "b"][:rng.choice([1, 2])]
         lines = []
+        # local variables assigned before the block: `{d}` then passes a value, not text
+        assigns = []
+        if rng.random() < 0.35:
+            for ln_ in ["d", "e"][:rng.choice([1, 1, 2])]:
+                src = rng.choice(params + [x["name"] for x in assigns])
+                c4 = rng.random()
+                if c4 < 0.4:
+                    ex = {"k": "bin", "op": rng.choice(["add", "sub", "mul"]), "l": var(src), "r": numlit(str(rng.randrange(0, 4)))}
+                elif c4 < 0.6:
+                    ex = {"k": "sshort", "e": var(src), "n": numlit(str(rng.choice([4, 8, 8, 16])))}
+                elif c4 < 0.8:
+                    ex = {"k": "bin", "op": "add", "l": var("$"), "r": var(src)}
+                else:
+                    ex = var(src)
+                assigns.append({"name": ln_, "e": ex})
+        phnames = params + [x["name"] for x in assigns] * 2
         def has_imm(ops):
             return any(o[0] == "sub" and any(r["pat"][0]["lc"] == "%" for r in o[1]["rules"]) for o in ops)
         immrules = [(r, ops) for r, ops in base if has_imm(ops)]
@@ -1180,7 +1196,7 @@ def gen_macro_program(rng):
             while i2 < len(toks):
                 t = toks[i2]
                 if not t.get("lit") and t["k"] in ("num", "id") and rng.random() < 0.6 and t["s"] not in ("$",):
-                    out.append(ph(rng.choice(params), t["b"]))
+                    out.append(ph(rng.choice(phnames), t["b"]))
                     # swallow the rest of a simple operand
                     i2 += 1
                     continue
@@ -1198,7 +1214,7 @@ def gen_macro_program(rng):
                 pat.append({"p": "ws"})
             ty = rng.choice([("none", 0), ("none", 0), ("u", 8), ("i", 8)])
             pat.append(_par(p, ty[0], ty[1]))
-        rule = {"block": "cpu", "sub": False, "pat": pat, "prod": {"k": "asm", "lines": lines}}
+        rule = {"block": "cpu", "sub": False, "pat": pat, "prod": {"k": "asm", "lines": lines, "assigns": assigns}}
         rules.append(rule)
         macros.append({"rule": rule, "ops": [("typed", "u", 8) if x["p"] == "par" and x["ty"] != "none" else ("untyped", 8)
                                              for x in pat if x["p"] == "par"]})
@@ -1239,7 +1255,14 @@ def render_macro_program(P):
         out.append("%s %s\n{\n" % ("#subruledef" if sub else "#ruledef", name))
         for r in blocks[key]:
             if r["prod"].get("k") == "asm":
-                out.append("    %s => asm\n    {\n" % render_pattern(r["pat"]))
+                asg = r["prod"].get("assigns") or []
+                if asg:
+                    out.append("    %s =>\n    {\n" % render_pattern(r["pat"]))
+                    for a_ in asg:
+                        out.append("      %s = %s\n" % (a_["name"], genexpr.render(a_["e"])))
+                    out.append("      asm\n    {\n")
+                else:
+                    out.append("    %s => asm\n    {\n" % render_pattern(r["pat"]))
                 for ln in r["prod"]["lines"]:
                     if ln["k"] == "label":
                         out.append("        %s:\n" % ln["name"])
@@ -1249,7 +1272,7 @@ def render_macro_program(P):
                             sp = "{%s}" % t["s"] if t["k"] == "ph" else ("".join(t["text"]) if t["k"] == "num" else t["s"])
                             txt.append((" " if (t["b"] and i > 0) else "") + sp)
                         out.append("        " + "".join(txt) + "\n")
-                out.append("    }\n")
+                out.append("    }\n" + ("    }\n" if asg else ""))
             else:
                 out.append("    %s => %s\n" % (render_pattern(r["pat"]), genexpr.render(r["prod"])))
         out.append("}\n")
